@@ -253,6 +253,19 @@ def perturb_steps(state, rnd):
         cands.append({"method_name": "cases", "goal_id": gid, "fact_ids": [], "case": ptxt})
     cands.append({"method_name": "new_var", "goal_id": gid, "fact_ids": [], "name": "vnew%d" % rnd.randint(0, 9), "type": "bool"})
     cands.append({"method_name": "introduction", "goal_id": gid, "fact_ids": [], "names": "v1, v2"})
+    # forall_elim / exists_elim on a visible universally / existentially quantified fact
+    for f in rnd.sample(facts, len(facts)):
+        try:
+            if f.th.prop.is_forall():
+                pool = sorted(nm for nm, T2 in state.get_vars(gid).items() if T2 == f.th.prop.arg.var_T)
+                if pool:
+                    cands.append({"method_name": "forall_elim", "goal_id": gid, "fact_ids": [str(f.id)], "s": rnd.choice(pool)})
+                    break
+            elif f.th.prop.is_exists():
+                cands.append({"method_name": "exists_elim", "goal_id": gid, "fact_ids": [str(f.id)], "names": "e%d" % rnd.randint(0, 9)})
+                break
+        except Exception:
+            pass
     if fsel:
         cands.append({"method_name": "revert_intro", "goal_id": gid, "fact_ids": fsel[:1]})
     rnd.shuffle(cands)
@@ -434,8 +447,8 @@ def gen_exists_twice(rnd, n):
     for i in range(k):
         T = rnd.choice(ATOMS)
         vars_["P%d" % i] = "%s => bool" % T
-        assums.append("(?%s. P%d %s)" % (rnd.choice(BOUND), i, "%s"))
-    assums = [a % a[2:a.index(".")] for a in assums]
+        b = rnd.choice(BOUND)
+        assums.append("(?%s. P%d %s)" % (b, i, b))
     concl = rnd.choice(["R", "R", "?%s. P0 %s" % ("t", "t")])
     if concl == "R":
         vars_["R"] = "bool"
@@ -609,7 +622,9 @@ def le_apply(state, op, next_uid):
 def seqj(x):
     """TLC prints an empty function as {} and a sequence as [...]"""
     if isinstance(x, dict):
-        return [] if not x else [seqj(x[k]) for k in sorted(x, key=int)]
+        if all(k.isdigit() for k in x):
+            return [seqj(x[k]) for k in sorted(x, key=int)]
+        return {k: seqj(v) for k, v in x.items()}
     if isinstance(x, list):
         return [seqj(y) for y in x]
     return x
@@ -767,7 +782,7 @@ if __name__ == "__main__":
         print(mode, "vectors", n, "events", out.tid)
         sys.exit(0)
     path, seed_, n_per = sys.argv[2], int(sys.argv[3]), int(sys.argv[4])
-    theories = sys.argv[5].split(",")
+    theories = [t for t in sys.argv[5].split(",") if t and t != "-"]
     rnd = random.Random(seed_)
     out = Out(path)
     if mode == "edit":
